@@ -21,6 +21,7 @@ import sys
 from ..core import BUILD, hx, parallel_map, sha
 
 DRIVERS = ["drv_caller"]
+GENERATED = ["CallerShape"]
 
 NQ = 2            # queries whose ordering points are forced (later ones run free and are only judged)
 _REPORTED = set()
